@@ -71,6 +71,21 @@ MovesJoin(h, kn) ==
              \o (IF rc = 2 THEN PreVerbs(h[2], 2) ELSE <<>>)
              \o JoinMoves(h, lc, rc)
 
+(* hidden / hidden name collisions: both sides hide (drop or overwrite) a column of the same name, join, probe *)
+MovesJoinH(h, kn) ==
+    LET lc == LCur(h)
+        rc == RCur(h)
+        jc == JCur(h)
+        pre(t, i) == LET b == ColOf(t, "b") IN
+                     MapS(b, LAMBDA c : MDrop(i, <<Col(c)>>)) \o MapS(b, LAMBDA c : MMutate(i, <<KV("b", Fn2("mul", Col(c), LitI(2)))>>))
+        jm(i, j) == LET la == ColOf(h[i], "a") ra == ColOf(h[j], "a") IN
+                    IF la # <<>> /\ ra # <<>>
+                    THEN <<MJoin(i, j, <<Fn2("eq", Col(la[1]), Col(ra[1]))>>, "inner", ""),
+                           MJoin(i, j, <<Fn2("eq", Col(la[1]), Col(ra[1]))>>, "left", "_r")>>
+                    ELSE <<>>
+    IN  IF jc # 0 THEN (IF "probe" \in VisNames(h[jc]) THEN <<>> ELSE PostJoin(h, jc, kn))
+        ELSE (IF lc = 1 THEN pre(h[1], 1) ELSE <<>>) \o (IF rc = 2 THEN pre(h[2], 2) ELSE <<>>) \o (IF lc # 1 /\ rc # 2 THEN jm(lc, rc) ELSE <<>>)
+
 (* trimmed alphabet: an ordered / sliced / filtered / grouped-and-summarized side, then a join (SQL subquery rules for joins) *)
 MovesJoinS(h, kn) ==
     LET lc == LCur(h)
